@@ -237,7 +237,8 @@ add(
 
 # ================= serde/de.rs ====================================================================
 _DEPTH = [("m_depth_seq", "deserialize_seq/tuple/tuple_struct"), ("m_depth_map", "deserialize_map"),
-          ("m_depth_struct_seq", "deserialize_struct on '['"), ("m_depth_struct_map", "deserialize_struct on '{'")]
+          ("m_depth_struct_seq", "deserialize_struct on '['"), ("m_depth_struct_map", "deserialize_struct on '{'"),
+          ("m_depth_enum", "deserialize_enum on '{' (externally tagged variant; a newtype variant hands the deserializer straight on)")]
 for _n, _f in _DEPTH:
     add(H(_n, "main", ["C01"], ["serde::de::DepthGuard::guard/drop", "impl Deserializer for &mut Deserializer<R>: " + _f, "Deserializer::end_seq/end_map"],
           "every budget d in 1..=255 (inductive step: nested access sees d-1, d restored, d == 1 rejected without recursing); input fixed to an empty container",
